@@ -1,0 +1,290 @@
+//go:build verif
+
+package dtlcp
+
+// Hooks for the robustness check (verification harness only; build tag `verif`): run the
+// key-agreement functions on raw message bodies with the minimum handshake state they read,
+// run halfConn.decrypt on raw records, step Conn.readHandshake on a connection fed by the
+// harness, and read the lengths of the per-connection buffers. Panics are recovered and
+// reported: a panic is an observation. Add-only; nothing here changes library behaviour.
+
+import (
+	"crypto"
+	"fmt"
+	"io"
+	"net"
+
+	x509 "github.com/emmansun/gmsm/smx509"
+)
+
+// VerifKXResult is what one key-agreement call did.
+type VerifKXResult struct {
+	Panic string // recovered panic value ("" = none)
+	Err   error
+	Out   []byte // the produced / recovered value (key exchange body or pre-master secret)
+	Out2  []byte // generateClientKeyExchange: the pre-master secret
+	// crypto.Decrypter call made by the ECC processClientKeyExchange, if any
+	DecCalled bool
+	DecIn     []byte
+	DecLen    int
+	DecErr    bool
+	// sm2ECDHEKeyAgreement: peerTmpKey is set after the call
+	HaveTmpKey bool
+}
+
+// VerifKA wraps one key-agreement object (the handshake keeps one per connection).
+type VerifKA struct {
+	ka keyAgreementProtocol
+}
+
+// VerifNewKA returns the key agreement of the ECC ("ecc") or ECDHE ("ecdhe") suites.
+func VerifNewKA(kind string) *VerifKA {
+	if kind == "ecdhe" {
+		return &VerifKA{ka: ecdheKA(VersionTLCP)}
+	}
+	return &VerifKA{ka: eccKA(VersionTLCP)}
+}
+
+func verifRecover(r *VerifKXResult) {
+	if p := recover(); p != nil {
+		r.Panic = fmt.Sprint(p)
+	}
+}
+
+type verifDecrypter struct {
+	inner crypto.Decrypter
+	r     *VerifKXResult
+}
+
+func (d verifDecrypter) Public() crypto.PublicKey { return d.inner.Public() }
+func (d verifDecrypter) Decrypt(rand io.Reader, msg []byte, opts crypto.DecrypterOpts) ([]byte, error) {
+	d.r.DecCalled = true
+	d.r.DecIn = append([]byte(nil), msg...)
+	p, err := d.inner.Decrypt(rand, msg, opts)
+	d.r.DecLen, d.r.DecErr = len(p), err != nil
+	return p, err
+}
+
+func (k *VerifKA) tmpKey(r *VerifKXResult) {
+	if e, ok := k.ka.(*sm2ECDHEKeyAgreement); ok {
+		r.HaveTmpKey = e.peerTmpKey != nil
+	}
+}
+
+// GenerateSKX runs generateServerKeyExchange with the given server certificates and randoms.
+func (k *VerifKA) GenerateSKX(sig, enc *Certificate, clientRandom, serverRandom []byte) (r VerifKXResult) {
+	defer verifRecover(&r)
+	hs := &serverHandshakeState{c: &Conn{config: &Config{}}, sigCert: sig, encCert: enc,
+		clientHello: &clientHelloMsg{random: clientRandom}, hello: &serverHelloMsg{random: serverRandom}}
+	skx, err := k.ka.generateServerKeyExchange(hs)
+	r.Err = err
+	if skx != nil {
+		r.Out = skx.key
+	}
+	return
+}
+
+// ProcessCKX runs processClientKeyExchange (server side) on a raw ClientKeyExchange body.
+// peer is hs.peerCertificates (the client's certificates, ECDHE only).
+func (k *VerifKA) ProcessCKX(sig, enc *Certificate, peer []*x509.Certificate, body []byte) (r VerifKXResult) {
+	defer verifRecover(&r)
+	if enc != nil {
+		if d, ok := enc.PrivateKey.(crypto.Decrypter); ok {
+			cp := *enc
+			cp.PrivateKey = verifDecrypter{inner: d, r: &r}
+			enc = &cp
+		}
+	}
+	hs := &serverHandshakeState{c: &Conn{config: &Config{}}, sigCert: sig, encCert: enc, peerCertificates: peer}
+	pre, err := k.ka.processClientKeyExchange(hs, &clientKeyExchangeMsg{ciphertext: body})
+	r.Err, r.Out = err, pre
+	return
+}
+
+// ProcessSKX runs processServerKeyExchange (client side) on a raw ServerKeyExchange body.
+func (k *VerifKA) ProcessSKX(peer []*x509.Certificate, clientRandom, serverRandom, body []byte) (r VerifKXResult) {
+	defer verifRecover(&r)
+	defer k.tmpKey(&r)
+	hs := &clientHandshakeState{c: &Conn{config: &Config{}}, peerCertificates: peer,
+		hello: &clientHelloMsg{random: clientRandom, vers: VersionTLCP}, serverHello: &serverHelloMsg{random: serverRandom}}
+	r.Err = k.ka.processServerKeyExchange(hs, &serverKeyExchangeMsg{key: body})
+	return
+}
+
+// GenerateCKX runs generateClientKeyExchange (client side). clientEnc is hs.encCert (nil when
+// the server sent no CertificateRequest or the client has no encryption certificate).
+func (k *VerifKA) GenerateCKX(peer []*x509.Certificate, clientEnc *Certificate, vector bool) (r VerifKXResult) {
+	defer verifRecover(&r)
+	defer k.tmpKey(&r)
+	hs := &clientHandshakeState{c: &Conn{config: &Config{ClientECDHEParamsAsVector: vector}}, peerCertificates: peer,
+		encCert: clientEnc, hello: &clientHelloMsg{vers: VersionTLCP}}
+	pre, ckx, err := k.ka.generateClientKeyExchange(hs)
+	r.Err, r.Out2 = err, pre
+	if ckx != nil {
+		r.Out = ckx.ciphertext
+	}
+	return
+}
+
+// VerifGetECDHEPublicKey runs getECDHEPublicKey on a raw ClientKeyExchange body.
+func VerifGetECDHEPublicKey(body []byte) (r VerifKXResult) {
+	defer verifRecover(&r)
+	pub, err := getECDHEPublicKey(body)
+	r.Err = err
+	if pub != nil {
+		r.Out = pub.Bytes()
+	}
+	return
+}
+
+// ---------------------------------------------------------------------------
+// record protection
+
+// VerifHalfConn is a receive (or send) direction with the protection of a cipher suite.
+type VerifHalfConn struct {
+	hc halfConn
+}
+
+// VerifNewHalfConn builds a halfConn protected as suite id would after ChangeCipherSpec
+// (id 0 = no protection yet).
+func VerifNewHalfConn(id uint16, key, iv, macKey []byte, isRead bool) *VerifHalfConn {
+	v := &VerifHalfConn{}
+	v.hc.version = VersionTLCP
+	s := cipherSuites[id]
+	if s == nil {
+		return v
+	}
+	if s.aead != nil {
+		v.hc.cipher = s.aead(key, iv)
+	} else {
+		v.hc.cipher = s.cipher(key, iv, isRead)
+		v.hc.mac = s.mac(macKey)
+	}
+	return v
+}
+
+// SetSeq sets epoch(2) || sequence number(6).
+func (v *VerifHalfConn) SetSeq(seq [8]byte) { v.hc.seq = seq }
+
+// Decrypt runs halfConn.decrypt on a copy of a whole record (13-byte header included); after is that copy as
+// decrypt left it (CBC decryption happens in place).
+func (v *VerifHalfConn) Decrypt(record []byte) (plain []byte, typ byte, err error, panicked string, after []byte) {
+	rec := append([]byte(nil), record...)
+	defer func() {
+		if p := recover(); p != nil {
+			panicked = fmt.Sprint(p)
+		}
+		after = rec
+	}()
+	p, t, e := v.hc.decrypt(rec)
+	return append([]byte(nil), p...), byte(t), e, "", rec
+}
+
+// Encrypt seals payload as one record of type typ with the sequence number set by SetSeq.
+func (v *VerifHalfConn) Encrypt(typ byte, payload []byte, rnd io.Reader) ([]byte, error) {
+	hdr := make([]byte, recordHeaderLen)
+	hdr[0] = typ
+	hdr[1], hdr[2] = byte(VersionTLCP>>8), byte(VersionTLCP&0xff)
+	copy(hdr[3:11], v.hc.seq[:])
+	hdr[11], hdr[12] = byte(len(payload)>>8), byte(len(payload))
+	return v.hc.encrypt(hdr, payload, rnd)
+}
+
+// VerifExtractPadding exposes extractPadding.
+func VerifExtractPadding(payload []byte) (toRemove int, good byte, panicked string) {
+	defer func() {
+		if p := recover(); p != nil {
+			panicked = fmt.Sprint(p)
+		}
+	}()
+	toRemove, good = extractPadding(payload)
+	return
+}
+
+// ---------------------------------------------------------------------------
+// connection buffers and handshake framing
+
+// VerifBufLens reports len(c.handBuf), len(c.rawInputBuf), len(c.readBuf), c.retryCount, the
+// number of pending reassembly buffers and the bytes they hold (data + bitmap).
+// Call it only while no other goroutine is inside the connection.
+func VerifBufLens(c *Conn) (hand, rawInput, readBuf, retry, nPending, pendingBytes int) {
+	for _, fb := range c.pendingFragments {
+		pendingBytes += len(fb.data) + len(fb.received)
+	}
+	return c.handBuf.Len(), len(c.rawInputBuf), len(c.readBuf), c.retryCount, len(c.pendingFragments), pendingBytes
+}
+
+// VerifNewRawConn returns a connection over pconn whose handshake has not run; it is meant
+// for VerifStepHandshake / VerifStepRecord only.
+func VerifNewRawConn(pconn net.PacketConn, peer net.Addr, isClient, haveVers bool) *Conn {
+	var c *Conn
+	if isClient {
+		c = Client(pconn, peer, &Config{})
+	} else {
+		c = Server(pconn, peer, &Config{})
+	}
+	if haveVers {
+		c.vers, c.haveVers = VersionTLCP, true
+		c.in.version, c.out.version = VersionTLCP, VersionTLCP
+	}
+	return c
+}
+
+// VerifSetComplete marks the handshake of a raw connection as complete / not complete.
+func VerifSetComplete(c *Conn, done bool) {
+	if done {
+		c.hsState.Store(int32(stateFinished))
+	} else {
+		c.hsState.Store(int32(statePreparing))
+	}
+}
+
+// VerifStepHandshake runs one c.readHandshake(nil) and reports the message type and total
+// length (header included) of the message it returned, or the error / recovered panic.
+func VerifStepHandshake(c *Conn) (typ byte, length int, err error, panicked string) {
+	defer func() {
+		if p := recover(); p != nil {
+			panicked = fmt.Sprint(p)
+		}
+	}()
+	c.in.Lock()
+	defer c.in.Unlock()
+	m, e := c.readHandshake(nil)
+	if e != nil {
+		return 0, 0, e, ""
+	}
+	raw, e := m.(handshakeMessage).marshal()
+	if e != nil {
+		return 0, 0, nil, ""
+	}
+	return raw[0], len(raw), nil, ""
+}
+
+// VerifStepRecord runs one c.readRecordOrCCS(expectCCS) and reports the error / panic.
+func VerifStepRecord(c *Conn, expectCCS bool) (err error, panicked string) {
+	defer func() {
+		if p := recover(); p != nil {
+			panicked = fmt.Sprint(p)
+		}
+	}()
+	c.in.Lock()
+	defer c.in.Unlock()
+	return c.readRecordOrCCS(expectCCS), ""
+}
+
+// VerifInstallReadCipher makes the receive direction of a raw connection protected as suite
+// id would be after ChangeCipherSpec (the read epoch is advanced to epoch).
+func VerifInstallReadCipher(c *Conn, id uint16, key, iv, macKey []byte, epoch uint16) {
+	v := VerifNewHalfConn(id, key, iv, macKey, true)
+	c.in.cipher, c.in.mac = v.hc.cipher, v.hc.mac
+	c.readEpoch = epoch
+}
+
+// VerifWriteRecord seals data as record(s) of an arbitrary content type with the connection's
+// current write protection and sends them (a peer that completed the handshake and then
+// misbehaves).
+func VerifWriteRecord(c *Conn, typ byte, data []byte) (int, error) {
+	c.out.Lock()
+	defer c.out.Unlock()
+	return c.writeRecordLocked(recordType(typ), data)
+}
